@@ -59,6 +59,15 @@ InClass(e) == CASE e.k = "exh3" -> e.w \in 1..Small3MaxW /\ \A i \in 1..Len(e.sr
                 [] OTHER -> e.w \in 1..200 /\ e.h \in 1..30
 
 \* ---- diagnostics
+\* which run type covers each cell of the compressed stream (same walk as DecodeRow, recording the type instead of the cell)
+RECURSIVE RowTypes(_, _, _, _)
+RowTypes(b, o, w, acc) ==
+  IF Len(acc) >= w \/ o > Len(b) THEN [ok |-> Len(acc) = w, why |-> "", cells |-> acc, o |-> o]
+  ELSE RowTypes(b, o + 1 + RunPayload(RunType(b[o]), RunCount(b[o])), w, acc \o [i \in 1..RunCount(b[o]) |-> RunType(b[o])])
+TypeRows(b, w, h) == FoldLeft(LAMBDA st, y : IF st.ok THEN RowsStep(st, RowTypes(b, st.o, w, <<>>)) ELSE st, [ok |-> TRUE, why |-> "", rows |-> <<>>, o |-> 1], Iota(h)).rows
+\* run types that cover the cells in which got differs from exp (rows of cells)
+BadCellsOf(exp, got) == {<<y, x>> \in (1..Len(exp)) \X (1..Len(exp[1])) : y <= Len(got) /\ x <= Len(got[y]) /\ got[y][x] # exp[y][x]}
+BadRunTypesOf(exp, got, tys) == {tys[p[1]][p[2]] : p \in {q \in BadCellsOf(exp, got) : q[1] <= Len(tys) /\ q[2] <= Len(tys[q[1]])}}
 OnlyBit3(a, b) == a # b /\ a \div 16 = b \div 16 /\ a % 8 = b % 8
 \* rows (1-based indices) in which got differs from exp
 BadRows(exp, got) == {y \in 1..Len(exp) : y > Len(got) \/ got[y] # exp[y]}
@@ -69,7 +78,7 @@ RowsKind(exp, got, ext) ==
        THEN "fontpage-bit-only" ELSE "cells"
 MinOf(S) == CHOOSE m \in S : \A n \in S : m <= n
 RowsInfoAt(exp, got, e, bad, y) ==
-  [kind |-> RowsKind(exp, got, e.nf = 2), nf |-> e.nf, ice |-> e.ice, w |-> e.w, h |-> e.h, k |-> e.k, nbad |-> Cardinality(bad), row |-> y - 1,
+  [kind |-> RowsKind(exp, got, e.nf = 2), runs |-> IF e.c.st = "ok" THEN BadRunTypesOf(exp, got, TypeRows(e.c.img, e.w, e.h)) ELSE {}, nf |-> e.nf, ice |-> e.ice, w |-> e.w, h |-> e.h, k |-> e.k, nbad |-> Cardinality(bad), row |-> y - 1,
    exp |-> exp[y], got |-> IF y <= Len(got) THEN got[y] ELSE <<>>]
 RowsInfoB(exp, got, e, bad) == RowsInfoAt(exp, got, e, bad, MinOf(bad))
 RowsInfo(exp, got, e) == RowsInfoB(exp, got, e, BadRows(exp, got))
@@ -79,8 +88,11 @@ CellsKind(a, b) ==
   ELSE IF \A i \in 1..Len(a) : a[i] = b[i] \/ PgOnly(a[i], b[i]) THEN "fontpage-only" ELSE "cells"
 RECURSIVE FirstDiff(_, _, _)
 FirstDiff(a, b, i) == IF i > Len(a) \/ i > Len(b) THEN i ELSE IF a[i] # b[i] THEN i ELSE FirstDiff(a, b, i + 1)
+\* the engine's two decodes as rows (first h rows), to locate the run types of the differing cells
+AsRows(cells, w, h) == [y \in 1..h |-> SubSeq(cells, (y - 1) * w + 1, y * w)] \o <<>>
 CellsInfoAt(a, b, e, i) ==
-  [kind |-> CellsKind(a, b), nf |-> e.nf, ice |-> e.ice, w |-> e.w, h |-> e.h, k |-> e.k, at |-> i - 1,
+  [kind |-> CellsKind(a, b),
+   runs |-> IF e.c.st = "ok" /\ Len(a) >= e.w * e.h /\ Len(b) >= e.w * e.h THEN BadRunTypesOf(AsRows(b, e.w, e.h), AsRows(a, e.w, e.h), TypeRows(e.c.img, e.w, e.h)) ELSE {}, nf |-> e.nf, ice |-> e.ice, w |-> e.w, h |-> e.h, k |-> e.k, at |-> i - 1,
    a |-> IF i <= Len(a) THEN a[i] ELSE 0, b |-> IF i <= Len(b) THEN b[i] ELSE 0]
 CellsInfo(a, b, e) == CellsInfoAt(a, b, e, FirstDiff(a, b, 1))
 
